@@ -144,20 +144,46 @@ CtorPart(cr, cl, i, id) ==
               \o (IF nd >= 1 THEN << CallStep("new", cr.path, "", "", "c", [j \in 1..(n - nd) |-> ArgPy(a, cl, j)], NoKw, <<short>>, ret, "") >> ELSE <<>>),
               id1 + 1 + (IF n >= 1 THEN 1 ELSE 0) + (IF nd >= 1 THEN 1 ELSE 0))
 
-MethodPart(cr, cl, m, static, id) ==
-  IF ~Suppliable(m.args, cl) \/ (~static /\ ~Constructible(cr, cl)) \/ m.cpp \in {"serialize", "serializable"} THEN Acc(<<>>, id)
+\* cr declares the member; the receiver is an object of selfcr (cr itself, or a class derived from it)
+MethodPartOn(selfcr, cr, cl, m, static, id) ==
+  IF ~Suppliable(m.args, cl) \/ (~static /\ ~Constructible(selfcr, cl)) \/ m.cpp \in {"serialize", "serializable"} THEN Acc(<<>>, id)
   ELSE LET selfid == id + 1
            id0 == IF static THEN id ELSE selfid
            objs == ArgObjs(m.args, cl, 1, id0)
            pyname == MethodPyName(m.name, m.cpp)
            ent == cr.cpp \o "::" \o m.cpp
-       IN Acc((IF static THEN <<>> ELSE << NewObj(cr, cl, "self", selfid) >>)
+       IN Acc((IF static THEN <<>> ELSE << NewObj(selfcr, cl, "self", selfid) >>)
               \o [k \in 1..Len(objs) |-> objs[k].step]
-              \o Calls(IF static THEN "static" ELSE "method", cr.path, pyname, IF static THEN "" ELSE "self", m.args, cl, objs, ent,
+              \o Calls(IF static THEN "static" ELSE "method", selfcr.path, pyname, IF static THEN "" ELSE "self", m.args, cl, objs, ent,
                        IF static THEN <<>> ELSE << "obj" \o ToString(selfid) >>, RetOf(m.ret, cl))
-              \o (IF ~static /\ m.name = "print" /\ Len(m.args) = 0
+              \o (IF ~static /\ m.name = "print" /\ Len(m.args) = 0 /\ selfcr = cr
                   THEN << CallStep("repr", cr.path, "", "self", "", <<>>, NoKw, << ent \o "(obj" \o ToString(selfid) \o ")" >>, "val:'printed'", "") >> ELSE <<>>),
               id0 + Len(objs))
+
+MethodPart(cr, cl, m, static, id) == MethodPartOn(cr, cr, cl, m, static, id)
+
+\* operators: -a, a + b, a += b, a == b ..., a(x), a[x]; the library names the entity `<class>::operator<symbol>`
+OpPart(cr, cl, o, id) ==
+  IF ~Constructible(cr, cl) THEN Acc(<<>>, id)
+  ELSE LET ent == cr.cpp \o "::operator" \o o.op
+           selfid == id + 1
+       IN IF o.op \in {"()", "[]"}
+          THEN IF ~Suppliable(o.args, cl) THEN Acc(<<>>, id)
+               ELSE LET objs == ArgObjs(o.args, cl, 1, selfid) IN
+                    Acc(<< NewObj(cr, cl, "self", selfid) >> \o [k \in 1..Len(objs) |-> objs[k].step]
+                        \o << CallStep("method", cr.path, IF o.op = "()" THEN "__call__" ELSE "__getitem__", "self", "",
+                                        [j \in 1..Len(o.args) |-> ArgPy(o.args, cl, j)], NoKw,
+                                        << ent \o "(" \o JoinStr(<< "obj" \o ToString(selfid) >> \o [j \in 1..Len(o.args) |-> ArgLog(o.args, cl, objs, j)], ",") \o ")" >>,
+                                        RetOf(o.ret, cl), "") >>,
+                        selfid + Len(objs))
+          ELSE IF Len(o.args) = 0
+          THEN Acc(<< NewObj(cr, cl, "self", selfid),
+                      CallStep("unop", cr.path, o.op, "self", "", <<>>, NoKw, << ent \o "(obj" \o ToString(selfid) \o ")" >>, RetOf(o.ret, cl), "") >>, selfid)
+          ELSE IF Len(o.args) = 1 /\ Kind(o.args[1].t, cl) = "class" /\ BaseName(St(o.args[1].t.cpp)) = cr.cpp
+          THEN Acc(<< NewObj(cr, cl, "self", selfid), NewObj(cr, cl, "a1", selfid + 1),
+                      CallStep("binop", cr.path, o.op, "self", "", <<"$a1">>, NoKw,
+                               << ent \o "(obj" \o ToString(selfid) \o ",obj" \o ToString(selfid + 1) \o ")" >>, RetOf(o.ret, cl), "") >>, selfid + 1)
+          ELSE Acc(<<>>, id)
 
 PropPart(cr, cl, p, id) ==
   IF ~Constructible(cr, cl) THEN Acc(<<>>, id)
@@ -180,6 +206,8 @@ PartOf(cr, cl, d, id) ==
     [] d.kind = "method" -> MethodPart(cr, cl, cr.c.methods[d.i], FALSE, id)
     [] d.kind = "static" -> MethodPart(cr, cl, cr.c.statics[d.i], TRUE, id)
     [] d.kind = "prop" -> PropPart(cr, cl, cr.c.props[d.i], id)
+    [] d.kind = "op" -> OpPart(cr, cl, cr.c.ops[d.i], id)
+    [] d.kind = "inherited" -> MethodPartOn(cr, cl[Find(cl, cr.c.base)], cl, cl[Find(cl, cr.c.base)].c.methods[d.i], FALSE, id)
 FoldParts(ds, ctx, acc) ==
   IF ds = <<>> THEN acc
   ELSE LET r == PartOf(ctx.cr, ctx.cl, Head(ds), acc.id) IN FoldParts(Tail(ds), ctx, Cat(acc, r.steps, r.id))
@@ -188,6 +216,10 @@ ClassPlan(cr, cl, id) ==
   LET c == cr.c
       ds == [i \in 1..Len(c.ctors) |-> [kind |-> "ctor", i |-> i]] \o [i \in 1..Len(c.methods) |-> [kind |-> "method", i |-> i]]
             \o [i \in 1..Len(c.statics) |-> [kind |-> "static", i |-> i]] \o [i \in 1..Len(c.props) |-> [kind |-> "prop", i |-> i]]
+            \o [i \in 1..Len(c.ops) |-> [kind |-> "op", i |-> i]]
+            \* a method of the base class called on an object of the derived class runs the base's entity
+            \o (IF c.hasbase /\ Find(cl, c.base) # 0
+                THEN [i \in 1..Len(cl[Find(cl, c.base)].c.methods) |-> [kind |-> "inherited", i |-> i]] ELSE <<>>)
       enums == FlatSeq([i \in 1..Len(c.enums) |->
                   [j \in 1..Len(c.enums[i].enumerators) |->
                      CallStep("enum", cr.path \o <<c.enums[i].name>>, c.enums[i].enumerators[j], "", "", <<>>, NoKw, <<>>, "val:" \o ToString(j - 1), "")]])
